@@ -254,7 +254,7 @@ class Stats:
                                 and sorted(po["pool"]) == sorted(o["pool"]) and po["total"] == o["total"] and po["ptr"] == o["ptr"]):
                 why = "final observables differ from the prediction"
         if why:
-            self.inexact.append({"sc": sc, "why": why, "tr": e["tr"]})
+            self.inexact.append({"sc": sc, "why": why, "tr": e["tr"], "beh": {"sc": sc, "sched": e["sched"], "pred": pred}})
 
 
 def validate(run, stats, trace, tag, kf_known):
@@ -444,7 +444,18 @@ def check(run):
         raise vp.Undecided("ExtractLockKeys no longer yields the specification's lock keys (%s): binding lost, no verdict"
                            % run.cov["lock_keys_differ_from_specification"])
     if not run.violations and stats.inexact:
-        vp.log("runs the step model does not describe: %s" % json.dumps(stats.inexact[:3]))
+        # scheduling noise or a real divergence? a schedule the code does not follow deterministically fails again
+        first = stats.inexact
+        vp.log("re-running %d schedules that were not followed: %s" % (len(first), json.dumps([x["why"] for x in first[:3]])))
+        again = Stats(cat)
+        bd = beh_dir_of(run, "again", [x["beh"] for x in first])
+        for i, tr in enumerate(replay(run, catalog, bd, len(first), "again", shards=1)):
+            validate(run, again, tr, "again_%d" % i, kf_known)
+        run.cov["schedules_rerun_after_noise"] = len(first) - len(again.inexact)
+        stats.inexact = again.inexact
+        run.cov["runs_not_described_by_step_model"] = len(stats.inexact)
+    if not run.violations and stats.inexact:
+        vp.log("runs the step model does not describe: %s" % json.dumps([{k: v for k, v in x.items() if k != "beh"} for x in stats.inexact[:3]]))
         raise vp.Undecided("%d gated runs did not follow the schedule / the step model's prediction: the step model of "
                            "spec/SpinLock.tla no longer describes the code (binding lost), no verdict" % len(stats.inexact))
     run.finish(require={
